@@ -7,9 +7,9 @@ git -C /repo worktree add -q --detach $W HEAD || exit 2
 T=$(ls $S/*_test.go.txt | head -1); N=$(basename ${T%.txt})
 cp $T $W/$DIR/$N
 cd $W
-go test -vet=off -count=1 -run 'Seeded' ./$DIR > /tmp/confirm-$ID.without 2>&1; A=$?
+go test -vet=off -count=1 -run "${3:-Seeded}" ./$DIR > /tmp/confirm-$ID.without 2>&1; A=$?
 git apply $S/patch.diff || { echo "patch does not apply"; }
-go test -vet=off -count=1 -run 'Seeded' ./$DIR > /tmp/confirm-$ID.with 2>&1; B=$?
+go test -vet=off -count=1 -run "${3:-Seeded}" ./$DIR > /tmp/confirm-$ID.with 2>&1; B=$?
 rm $W/$DIR/$N
 go build ./... && go test -vet=off -count=1 ./... > /tmp/confirm-$ID.suite 2>&1; C=$?
 echo "$ID demo_without_patch_exit=$A demo_with_patch_exit=$B existing_suite_with_patch_exit=$C"
